@@ -204,6 +204,9 @@ pub struct WalkEntry {
     follow: Follow,
     /// Cached metadata.
     meta: OnceCell<Result<Metadata, WalkError>>,
+    /// Length of the starting point this entry was found under, as it was
+    /// spelled on the command line (the path begins with exactly that text).
+    starting_point_len: Option<usize>,
 }
 
 impl WalkEntry {
@@ -213,7 +216,29 @@ impl WalkEntry {
             inner: Entry::Explicit(path.into(), depth),
             follow,
             meta: OnceCell::new(),
+            starting_point_len: None,
         }
+    }
+
+    /// Record the starting point (as given) that the walk of this entry began at.
+    pub fn under_starting_point(mut self, starting_point: &str) -> Self {
+        self.starting_point_len = Some(starting_point.len());
+        self
+    }
+
+    /// The starting point as it was given, when known: the leading part of the
+    /// path, not a normalised ancestor of it.
+    #[cfg(unix)]
+    pub fn starting_point(&self) -> Option<&Path> {
+        use std::os::unix::ffi::OsStrExt;
+        let path = self.path().as_os_str().as_bytes();
+        let len = self.starting_point_len?;
+        path.get(..len).map(|p| Path::new(OsStr::from_bytes(p)))
+    }
+
+    #[cfg(not(unix))]
+    pub fn starting_point(&self) -> Option<&Path> {
+        None
     }
 
     /// Convert a [walkdir::DirEntry] to a [WalkEntry].  Errors due to broken symbolic links will be
@@ -234,6 +259,7 @@ impl WalkEntry {
                         inner: Entry::WalkDir(entry),
                         follow,
                         meta: OnceCell::new(),
+                        starting_point_len: None,
                     }
                 };
                 Ok(ret)
@@ -246,6 +272,7 @@ impl WalkEntry {
                             inner: Entry::Explicit(path.into(), depth),
                             follow: Follow::Never,
                             meta: Ok(meta).into(),
+                            starting_point_len: None,
                         });
                     }
                 }
